@@ -674,6 +674,7 @@ func (c *Ctx) declSentinel(name string) {
 		c.decls.axioms = append(c.decls.axioms, fmt.Sprintf("(distinct %s %s)", name, fe))
 	}
 	c.sentinels[name] = true
+	c.sentinelIsAxioms()
 }
 
 func (env *Env) evalUnary(x *ast.UnaryExpr, st *State) Val {
@@ -724,6 +725,7 @@ func (env *Env) evalUnary(x *ast.UnaryExpr, st *State) Val {
 		// channel receive: an arbitrary value of the element type (blocking not modelled)
 		c.trust("channel receives yield arbitrary values; blocking and ordering of channel operations are not modelled")
 		env.eval(x.X, st)
+		c.chanOp(env, "recv", x.X, nil, st, x.Pos())
 		var et types.Type = tInt
 		if !env.contract {
 			if t := env.pkg.info.TypeOf(x); t != nil {
